@@ -157,9 +157,18 @@ func NewRun(cfg Config) *Run {
 	return r
 }
 
+// baseID strips an encoding suffix ("pA~pobj" -> "pA"): encodings of one
+// function count as the same function for instance numbering.
+func baseID(id string) string {
+	if i := strings.IndexByte(id, '~'); i >= 0 {
+		return id[:i]
+	}
+	return id
+}
+
 func (r *Run) nextInst(f *u.Func) string {
-	k := r.uses[f.ID]
-	r.uses[f.ID] = k + 1
+	k := r.uses[baseID(f.ID)]
+	r.uses[baseID(f.ID)] = k + 1
 	return fmt.Sprintf("%s#%d", f.ID, k)
 }
 
@@ -346,7 +355,7 @@ func (r *Run) Apply(op Op) *Step {
 	// function again (and differential runs with/without the rejected call
 	// name everything alike).
 	if !st.V.OK && op.Raw == nil && op.Fn != nil && (op.Kind == OpProvide || op.Kind == OpDecorate) && st.Inst != "" {
-		r.uses[op.Fn.ID]--
+		r.uses[baseID(op.Fn.ID)]--
 	}
 	// the model follows the implementation's verdict
 	if st.V.OK && op.Raw == nil {
